@@ -114,7 +114,6 @@ def cmd_ok(c: "WorkflowCommand", p: "WorkflowCommand", i: "int", tick: "TickStep
         or (
             isinstance(c, CommandRunWorker)
             and c.step_name == tick.step_name
-            and c.id == tick.worker_id
         )
         or (
             isinstance(c, CommandQueueEvent)
@@ -225,6 +224,11 @@ class StepResultTick:
                     this_execution.recovery_counts, init.config
                 ),
             )
+            # C01: the only worker started by the result loop is a re-run of the reporting slot itself
+            and forall(
+                len(commands),
+                lambda i: implies(isinstance(commands[i], CommandRunWorker), commands[i].id == tick.worker_id),
+            )
             # the slot stays in progress exactly when a re-run of it has been ordered
             and step_no_longer_in_progress
             == (not exists(len(commands), lambda i: isinstance(commands[i], CommandRunWorker)))
@@ -270,9 +274,21 @@ class StepResultTick:
             )
             and len(state.workers[tick.step_name].queue) + len(state.workers[tick.step_name].in_progress)
             == len(pre(state.workers)[tick.step_name].queue) + len(pre(state.workers)[tick.step_name].in_progress)
+            and len(state.workers[tick.step_name].in_progress) >= len(pre(state.workers)[tick.step_name].in_progress)
+            and forall(
+                len(pre(state.workers)[tick.step_name].in_progress),
+                lambda j: same(
+                    state.workers[tick.step_name].in_progress[j], pre(state.workers)[tick.step_name].in_progress[j]
+                ),
+            )
             and len(commands) >= len(pre(commands))
             and forall(len(pre(commands)), lambda i: same(commands[i], pre(commands)[i]))
-            and forall_range(len(pre(commands)), len(commands), lambda i: is_start_cmd(commands[i]))
+            and forall_range(
+                len(pre(commands)),
+                len(commands),
+                lambda i: is_start_cmd(commands[i])
+                and implies(isinstance(commands[i], CommandRunWorker), commands[i].step_name == tick.step_name),
+            )
         )
 
     # ------------------------------------------------------------- postconditions
@@ -285,6 +301,48 @@ class StepResultTick:
     def ensures_inv(old, tick, init, now_seconds, run_id, result):
         # C01: capacity and distinct slots are preserved, for every step
         return wf(result[0]) and Inv1(result[0])
+
+    def ensures_commands(old, tick, init, now_seconds, run_id, result):
+        # C04 (terminal event right before every exit), C05 (retry carries attempts+1 and the unchanged first-attempt
+        # time), C08 (exhausted failures go to the owning handler within budget, else fail with the same exception)
+        cmds = result[1]
+        ws = init.workers[tick.step_name]
+        return forall(
+            len(ws.in_progress),
+            lambda j: implies(
+                ws.in_progress[j].worker_id == tick.worker_id,
+                forall(
+                    len(cmds),
+                    lambda i: cmd_ok(
+                        cmds[i], cmds[i - 1], i, tick, ws.in_progress[j].attempts,
+                        ws.in_progress[j].first_attempt_at, ws.in_progress[j].recovery_counts, init.config
+                    ),
+                ),
+            ),
+        )
+
+    def ensures_slot_accounting(old, tick, init, now_seconds, run_id, result):
+        # C35 / C01: either the slot is given up - NOT_RUNNING for it is published first and the step holds one
+        # piece of work less - or it is re-run in place and nothing leaves the step
+        cmds = result[1]
+        ws = init.workers[tick.step_name]
+        ws2 = result[0].workers[tick.step_name]
+        return (
+            len(ws2.queue) + len(ws2.in_progress) == len(ws.queue) + len(ws.in_progress) - 1
+            and len(cmds) >= 1
+            and isinstance(cmds[0], CommandPublishEvent)
+            and type_is(cmds[0].event, StepStateChanged)
+            and cmds[0].event.step_state == StepState.NOT_RUNNING
+            and cmds[0].event.name == tick.step_name
+            and cmds[0].event.worker_id == str_of_int(tick.worker_id)
+        ) or (
+            len(ws2.queue) + len(ws2.in_progress) == len(ws.queue) + len(ws.in_progress)
+            and has_slot(ws2, tick.worker_id)
+            and exists(
+                len(cmds),
+                lambda i: isinstance(cmds[i], CommandRunWorker) and cmds[i].id == tick.worker_id,
+            )
+        )
 
     def ensures_work_conserving(old, tick, init, now_seconds, run_id, result):
         # C03(a): unless the run ends, nothing stays queued while a slot is free
